@@ -497,12 +497,70 @@ func buildType(t *TypeSpec) jsonapi.Type {
 	return typ
 }
 
+// buildSchema materialises a schema spec. "The same schema" can be reached through different edit
+// histories, so the way it is built varies with the spec (deterministically): straight AddType calls, or
+// with a decoy type that is looked up and removed again before the last type is added (the type count is
+// then the same before and after), or with the first type removed and added again after lookups. The
+// resulting schema always holds exactly the spec's types.
 func buildSchema(s *SchemaSpec) *jsonapi.Schema {
 	sc := &jsonapi.Schema{}
-	for i := range s.Types {
-		if err := sc.AddType(buildType(&s.Types[i])); err != nil {
+	add := func(t *TypeSpec) {
+		if err := sc.AddType(buildType(t)); err != nil {
 			panic("harness: AddType: " + err.Error())
 		}
+	}
+	lookups := func() {
+		for i := range s.Types {
+			_ = sc.HasType(s.Types[i].Name)
+			_ = sc.GetType(s.Types[i].Name)
+		}
+		_ = sc.HasType("zz-decoy")
+		_ = sc.GetType("zz-decoy")
+	}
+	n := len(s.Types)
+	variant := 0
+	if n > 0 {
+		variant = int(strSeed(s.Types[0].Name+fmt.Sprint(n, len(s.Types[0].Attrs), len(s.Types[n-1].Rels))) % 4)
+	}
+	switch {
+	case n == 0 || variant == 0:
+		for i := range s.Types {
+			add(&s.Types[i])
+		}
+	case variant == 1:
+		// decoy in the last slot while the schema is used, then replaced by the real last type
+		for i := 0; i < n-1; i++ {
+			add(&s.Types[i])
+		}
+		if err := sc.AddType(jsonapi.Type{Name: "zz-decoy"}); err != nil {
+			panic("harness: " + err.Error())
+		}
+		lookups()
+		sc.RemoveType("zz-decoy")
+		add(&s.Types[n-1])
+	case variant == 2:
+		// first type removed and added again after the schema was used (it ends up last)
+		for i := range s.Types {
+			add(&s.Types[i])
+		}
+		lookups()
+		if n > 1 {
+			sc.RemoveType(s.Types[0].Name)
+			add(&s.Types[0])
+		}
+	default:
+		// decoy first, removed in the middle of the build
+		if err := sc.AddType(jsonapi.Type{Name: "zz-decoy"}); err != nil {
+			panic("harness: " + err.Error())
+		}
+		for i := range s.Types {
+			add(&s.Types[i])
+			if i == 0 {
+				lookups()
+				sc.RemoveType("zz-decoy")
+			}
+		}
+		lookups()
 	}
 	return sc
 }
